@@ -16,7 +16,7 @@ SHARDS = {"quick": 8, "thorough": 16}
 RULE = (
     "case = transform class (Logit, Probit, Periodic, Affine, Identity, Composite with every on/off combination of "
     "periodic / bounded logit|probit / affine (periodic names listed in any order; optionally fitted before on data of another scale), FlowTransform) x namespace x width x bounds lower=m*10^a, width=10^b "
-    "(a,b in [-3,6], and occasionally all widths 1e+-80 (float64) / 1e+-10 (float32), subject to the constructor's own representability check) x batch (1..64 rows, 1..5 columns) x points "
+    "(a,b in [-3,6], and occasionally all widths 1e+-80 (float64) / 1e+-10 (float32), subject to the constructor's own representability check; written as floats or, where integral, as Python ints; dtype declared, or for single classes left to the class default) x batch (1..64 rows, 1..5 columns) x points "
     "placed by unit-interval coordinate u (uniform, log-spaced towards either bound down to the clipping margin, exactly "
     "eps and 1-eps, midpoint, and inside the margin where only finiteness is asserted; for wrapping any real up to 1e6 "
     "periods incl. exact multiples). Oracles: round trip, closed-form float64 log-Jacobian from the stored values, central "
